@@ -2,7 +2,10 @@
 
 package etcdraft
 
-import "github.com/meshplus/bitxhub-core/order"
+import (
+	"github.com/meshplus/bitxhub-core/order"
+	"github.com/meshplus/bitxhub/pkg/order/mempool"
+)
 
 // VerifClose releases the files of a stopped node incarnation (WAL segment locks, the
 // applied-index leveldb) so that a simulated cluster does not accumulate descriptors and
@@ -36,4 +39,15 @@ func VerifRestartState(o order.Order) (snapshotIndex, recordedApplied uint64) {
 		recordedApplied = n.loadAppliedIndex()
 	}
 	return
+}
+
+// VerifLeaderState reports whether the node regards itself as the leader, whether it is still in the hold-off that
+// follows its election (it resets its pool's batch sequence on every Ready until its in-flight entries are applied),
+// and the height its pool gave to the batch it cut last. Read by the simulator at quiescent points only.
+func VerifLeaderState(o order.Order) (leader, holdOff bool, batchSeq uint64) {
+	n, ok := o.(*Node)
+	if !ok || n == nil {
+		return false, false, 0
+	}
+	return n.leader == n.id, n.justElected, mempool.VerifBatchSeqNo(n.mempool)
 }
